@@ -27,9 +27,12 @@ vars == <<pt, sys, steps>>
 
 Systems == {"cartesian", "spherical", "cylindrical"}
 Signs == {-1, 0, 1}
-PointClasses == {[sx |-> a, sy |-> b, sz |-> c, mag |-> m, zkind |-> k] :
+\* skew: one coordinate a million times smaller than the others (a point a hair off an axis or a
+\* coordinate plane: azimuth within 1e-6 of 0, pi/2, ..., 2 pi; polar angle within 1e-6 of 0, pi/2, pi)
+PointClasses == {[sx |-> a, sy |-> b, sz |-> c, mag |-> m, zkind |-> k, skew |-> w] :
                    a \in Signs, b \in Signs, c \in Signs,
-                   m \in {"tiny", "unit", "huge"}, k \in {"scalar", "array"}}
+                   m \in {"tiny", "unit", "huge"}, k \in {"scalar", "array"},
+                   w \in {"none", "x_small", "y_small", "z_small"}}
 
 (* what is well defined for a class *)
 PhiDefined(p)   == p.sx # 0 \/ p.sy # 0
